@@ -22,10 +22,6 @@ def lake_build(targets):
 
 
 def build_harness():
-    try:
-        os.remove(CORR)
-    except FileNotFoundError:
-        pass
     # keep go.sum in step with the repository's
     try:
         with open(os.path.join(REPO, 'go.sum'), 'rb') as f:
@@ -37,7 +33,15 @@ def build_harness():
     with open(os.path.join(HARNESS, 'go.mod'), 'w') as f:
         f.write('module verif/harness\n\ngo 1.21\n\nrequire github.com/mdzio/go-mqtt v0.0.0\n\n'
                 'replace github.com/mdzio/go-mqtt => %s\n' % REPO)
-    rc, out = run(['go', 'build', '-tags', 'verif', '-o', CORR, './cmd/corr'], cwd=HARNESS, env=GOENV, timeout=1200)
+    tmp = CORR + '.new.%d' % os.getpid()
+    rc, out = run(['go', 'build', '-tags', 'verif', '-o', tmp, './cmd/corr'], cwd=HARNESS, env=GOENV, timeout=1200)
+    if rc == 0:
+        os.replace(tmp, CORR)     # atomic: a concurrently running check keeps its old binary
+    else:
+        try:
+            os.remove(CORR)       # never leave a stale harness behind a failed build
+        except FileNotFoundError:
+            pass
     return rc == 0, out
 
 
